@@ -10,8 +10,10 @@ Local Open Scope N_scope.
 (* side conditions on the jump table / parameters (proved for the real table in Bridge.v) *)
 Definition writes_ok (G : gastab) : bool :=
   w_sstore G && forallb (w_log G) [0; 1; 2; 3; 4] && w_create G && w_create2 G && w_selfdestruct G.
+(* CreateAccount does not hand the balance of an account deleted earlier in the block to the new one *)
+Definition no_resurrection (G : gastab) : bool := negb (p_resurrect G).
 Definition stipend_ok (G : gastab) : bool := N.leb (p_stipend G) (p_callvalue G).
-Definition table_ok (G : gastab) : bool := writes_ok G && stipend_ok G.
+Definition table_ok (G : gastab) : bool := writes_ok G && stipend_ok G && no_resurrection G.
 
 Section Inv.
 Variable G : gastab.
@@ -20,8 +22,8 @@ Variable P : prog.
 Definition R (pv : Prop) (s : state) (gas : N) (s' : state) (gas' : N) (b : N) : Prop :=
   (stipend_ok G = true -> gas' <= gas) /\
   ext s s' /\
-  (wf s -> wf s' /\ total s' + b = total s) /\
-  (writes_ok G = true -> pv -> veq s s').
+  (no_resurrection G = true -> wf s -> wf s' /\ total s' + b = total s) /\
+  (writes_ok G = true -> no_resurrection G = true -> pv -> veq s s').
 
 Definition good (pv : Prop) (s : state) (gas : N) (r : res) : Prop := R pv s gas (r_st r) (r_gas r) (r_burnt r).
 Definition sgood (pv : Prop) (s : state) (gas : N) (sr : sres) : Prop :=
@@ -36,8 +38,8 @@ Proof.
   intros. Rsplit.
   - intro; assumption.
   - apply ext_refl.
-  - intro W. split; [assumption | lia].
-  - intros _ _. apply veq_refl.
+  - intros _ W. split; [assumption | lia].
+  - intros _ _ _. apply veq_refl.
 Qed.
 
 Ltac Rsame := unfold sgood, fail, good; cbn [r_st r_gas r_burnt]; apply R_same; try lia.
@@ -48,8 +50,8 @@ Proof.
   intros pv s g s1 g1 b1 s2 g2 b2 (A1 & A2 & A3 & A4) (B1 & B2 & B3 & B4). Rsplit.
   - intro H. specialize (A1 H). specialize (B1 H). lia.
   - eapply ext_trans; eassumption.
-  - intro H. pose proof (A3 H) as [W T]. pose proof (B3 W) as [W2 T2]. split; [assumption | lia].
-  - intros Hw Hp. eapply veq_trans; [apply A4 | apply B4]; assumption.
+  - intros NR H. pose proof (A3 NR H) as [W T]. pose proof (B3 NR W) as [W2 T2]. split; [assumption | lia].
+  - intros Hw NR Hp. eapply veq_trans; [apply A4 | apply B4]; assumption.
 Qed.
 
 Lemma R_weaken : forall (pv pv' : Prop) s g s' g' b, (pv' -> pv) -> R pv s g s' g' b -> R pv' s g s' g' b.
@@ -59,13 +61,17 @@ Lemma R_gas : forall (pv : Prop) s g s' g' b g'', g'' <= g' -> R pv s g s' g' b 
 Proof. intros pv s g s' g' b g'' H (A & B & C & D). Rsplit; try tauto. intro K. specialize (A K). lia. Qed.
 
 (* a step on the state alone that keeps total and (when pv) the view *)
-Lemma R_prim : forall (pv : Prop) s g s', ext s s' -> (wf s -> wf s' /\ total s' = total s) ->
-  (writes_ok G = true -> pv -> veq s s') -> R pv s g s' g 0.
+Lemma R_prim : forall (pv : Prop) s g s', ext s s' -> (no_resurrection G = true -> wf s -> wf s' /\ total s' = total s) ->
+  (no_resurrection G = true -> pv -> veq s s') -> R pv s g s' g 0.
 Proof.
   intros pv s g s' E W V. Rsplit; try assumption.
   - intro; lia.
-  - intro H. destruct (W H) as [W1 T]. split; [assumption | lia].
+  - intros NR H. destruct (W NR H) as [W1 T]. split; [assumption | lia].
+  - intros _. exact V.
 Qed.
+
+Lemma nr_false : no_resurrection G = true -> p_resurrect G = false.
+Proof. unfold no_resurrection. destruct (p_resurrect G); [discriminate | reflexivity]. Qed.
 
 Lemma charge_le : forall c g g', charge c g = Some g' -> g' <= g.
 Proof. unfold charge. intros c g g' H. destruct (N.leb c g) eqn:E; inversion H. lia. Qed.
@@ -79,20 +85,25 @@ Lemma get_balance_set_obj : forall a b x s,
   get_balance a (set_obj b x s) = if addr_eqb a b then a_bal x else get_balance a s.
 Proof. intros. unfold get_balance. rewrite get_obj_set_obj. destruct (addr_eqb a b); reflexivity. Qed.
 
-Lemma get_balance_create_account : forall a b s, get_balance a (create_account b s) = get_balance a s.
+Lemma get_balance_create_object_new : forall a b s, get_obj b s = None -> get_balance a (create_object b s) = get_balance a s.
+Proof.
+  intros a b s E. destruct (create_object_new b s E) as (e & He & _). rewrite He, get_balance_set_obj.
+  destruct (addr_eqb a b) eqn:Eb; [|reflexivity].
+  apply addr_eqb_eq in Eb. subst. cbn [a_bal fresh]. unfold get_balance. rewrite E. reflexivity.
+Qed.
+
+Lemma get_balance_create_account : forall a b s, get_balance a (create_account false b s) = get_balance a s.
 Proof.
   intros a b s. unfold create_account. destruct (get_obj b s) as [prev|] eqn:E.
   - rewrite get_balance_set_obj. destruct (addr_eqb a b) eqn:Eb; [|reflexivity].
     apply addr_eqb_eq in Eb. subst. cbn [a_bal]. unfold get_balance. rewrite E. reflexivity.
-  - unfold create_object. rewrite E. rewrite get_balance_set_obj. destruct (addr_eqb a b) eqn:Eb; [|reflexivity].
-    apply addr_eqb_eq in Eb. subst. cbn [a_bal fresh]. unfold get_balance. rewrite E. reflexivity.
+  - destruct (alookup b (graves s)); apply get_balance_create_object_new; exact E.
 Qed.
 
 Lemma get_balance_get_or_new_any : forall a b s, get_balance a (get_or_new b s) = get_balance a s.
 Proof.
   intros. unfold get_or_new. destruct (get_obj b s) eqn:E; [reflexivity|].
-  unfold create_object. rewrite E, get_balance_set_obj. destruct (addr_eqb a b) eqn:Eb; [|reflexivity].
-  apply addr_eqb_eq in Eb. subst. cbn [a_bal fresh]. unfold get_balance. rewrite E. reflexivity.
+  apply get_balance_create_object_new. exact E.
 Qed.
 
 Lemma get_balance_set_nonce : forall a b n s, get_balance a (set_nonce b n s) = get_balance a s.
@@ -119,9 +130,9 @@ Proof.
   { intros g ret Hg. pose proof (revert_restores s (r_st r) B) as [J _]. Rsplit.
     - assumption.
     - apply ext_revert; [apply ext_refl | assumption].
-    - intro W. split; [apply wf_revert; apply C; assumption|].
+    - intros NR W. split; [apply wf_revert; apply C; assumption|].
       rewrite N.add_0_r. apply seq_total; [apply wf_revert; apply C; assumption | assumption | assumption].
-    - intros _ _. apply veq_sym. apply seq_veq. assumption. }
+    - intros _ _ _. apply veq_sym. apply seq_veq. assumption. }
   destruct (r_status r) eqn:E; try (Rsplit; assumption).
   - exact (K (r_gas r) (r_ret r) A).
   - apply (K 0 0). intro. lia.
@@ -156,18 +167,18 @@ Proof.
   - (* Call *)
     destruct (can_transfer (c_self cx) value s) eqn:C; cbn [negb]; [|Rsame].
     apply finish_good.
-    set (s1 := if exist to s then s else create_account to s).
+    set (s1 := if exist to s then s else create_account (p_resurrect G) to s).
     assert (R (call_pv KCall cx value) s gas s1 gas 0) as R1.
     { subst s1. destruct (exist to s) eqn:Ex; [Rsame|].
       apply R_prim; [apply ext_create_account | | ].
-      - intro W. split; [apply wf_create_account; assumption | apply total_create_account; assumption].
-      - intros _ _. apply veq_create_account_new. assumption. }
-    assert (can_transfer (c_self cx) value s1 = true) as C1.
-    { subst s1. destruct (exist to s); [assumption|]. unfold can_transfer in *. rewrite get_balance_create_account. assumption. }
+      - intros NR W. rewrite (nr_false NR). split; [apply wf_create_account; assumption | apply total_create_account; assumption].
+      - intros NR _. rewrite (nr_false NR). apply veq_create_account_new. assumption. }
+    assert (no_resurrection G = true -> can_transfer (c_self cx) value s1 = true) as C1.
+    { intro NR. subst s1. destruct (exist to s); [assumption|]. unfold can_transfer in *. rewrite (nr_false NR), get_balance_create_account. assumption. }
     eapply good_R_trans; [exact R1|].
     apply (good_R_trans _ _ _ (transfer (c_self cx) to value s1)).
     + apply R_prim; [apply ext_transfer | | ].
-      * intro W. split; [apply wf_transfer; assumption | apply total_transfer; assumption].
+      * intros NR W. split; [apply wf_transfer; assumption | apply total_transfer; [assumption | apply C1; assumption]].
       * intros _ [_ Hv]. rewrite (Hv eq_refl). apply veq_transfer_zero.
     + eapply R_weaken; [|apply run_code_good; assumption]. cbn [c_static]. intros [[Hs|Hs] _]; [assumption | discriminate].
   - (* CallCode *)
@@ -209,18 +220,18 @@ Proof.
   set (s1 := set_nonce (c_self cx) (get_nonce (c_self cx) s + 1) s).
   assert (forall g, R False s g s1 g 0) as R1.
   { intro g. apply R_prim; [apply ext_set_nonce | | tauto].
-    intro W. split; [apply wf_set_nonce; assumption | apply total_set_nonce; assumption]. }
+    intros _ W. split; [apply wf_set_nonce; assumption | apply total_set_nonce; assumption]. }
   destruct (negb (N.eqb (get_nonce address s1) 0) || negb (N.eqb (get_code address s1) 0)).
   { eapply R_gas; [|apply (R1 gas)]. cbn [r_gas]. lia. }
-  set (s2 := create_account address s1). set (s3 := set_nonce address 1 s2). set (s4 := transfer (c_self cx) address value s3).
+  set (s2 := create_account (p_resurrect G) address s1). set (s3 := set_nonce address 1 s2). set (s4 := transfer (c_self cx) address value s3).
   assert (forall g, R False s1 g s4 g 0) as R2.
   { intro g. apply R_prim; [ | | tauto].
     - eapply ext_trans; [apply ext_create_account|]. eapply ext_trans; [apply ext_set_nonce | apply ext_transfer].
-    - intro W. assert (wf s3) as W3 by (apply wf_set_nonce, wf_create_account; assumption).
+    - intros NR W. assert (wf s3) as W3 by (apply wf_set_nonce, wf_create_account; assumption).
       split; [apply wf_transfer; assumption|].
       subst s4. rewrite total_transfer; [| assumption |].
-      + subst s3. rewrite total_set_nonce by (apply wf_create_account; assumption). apply total_create_account. assumption.
-      + unfold can_transfer in *. subst s3 s2 s1. rewrite get_balance_set_nonce, get_balance_create_account, get_balance_set_nonce. assumption. }
+      + subst s3. rewrite total_set_nonce by (apply wf_create_account; assumption). subst s2. rewrite (nr_false NR). apply total_create_account. assumption.
+      + unfold can_transfer in *. subst s3 s2 s1. rewrite (nr_false NR), get_balance_set_nonce, get_balance_create_account, get_balance_set_nonce. assumption. }
   set (r := run_code P runf (mkCtx address (c_self cx) value (c_static cx) (c_depth cx + 1)) init gas s4).
   assert (good False s gas r) as Gr.
   { eapply good_R_trans; [apply R1|]. eapply good_R_trans; [apply R2|].
@@ -231,8 +242,8 @@ Proof.
   { intros st g ret Hg. destruct Gr as (A & B & Cc & D).
     pose proof (revert_restores s1 (r_st r) E1) as [J _]. Rsplit; try tauto.
     - apply ext_revert; [apply (R1 gas) | assumption].
-    - intro W0. split; [apply wf_revert; apply Cc; assumption|].
-      rewrite N.add_0_r. destruct (R1 gas) as (_ & _ & T1 & _). destruct (T1 W0) as [W1 T1'].
+    - intros NR W0. split; [apply wf_revert; apply Cc; assumption|].
+      rewrite N.add_0_r. destruct (R1 gas) as (_ & _ & T1 & _). destruct (T1 NR W0) as [W1 T1'].
       rewrite (seq_total _ s1); [lia | apply wf_revert; apply Cc; assumption | assumption | assumption]. }
   destruct (r_status r) eqn:Est.
   - (* Done: code deposit *)
@@ -241,7 +252,7 @@ Proof.
     apply charge_le in Ch. unfold good. cbn [r_st r_gas r_burnt].
     replace (r_burnt r) with (r_burnt r + 0) by lia. eapply R_trans; [exact Gr|].
     eapply R_gas; [exact Ch|]. apply R_prim; [apply ext_set_code | | tauto].
-    intro W. split; [apply wf_set_code; assumption | apply total_set_code; assumption].
+    intros _ W. split; [apply wf_set_code; assumption | apply total_set_code; assumption].
   - apply K. destruct Gr as (A & _). exact A.
   - apply K. intro. lia.
   - exact Gr.
@@ -257,7 +268,7 @@ Proof.
   destruct (can_transfer (c_self cx) value s); cbn [negb] in *; [|left; apply jeq_refl].
   set (s1 := set_nonce (c_self cx) (get_nonce (c_self cx) s + 1) s) in *.
   destruct (negb (N.eqb (get_nonce address s1) 0) || negb (N.eqb (get_code address s1) 0)); [right; apply jeq_refl|].
-  set (s4 := transfer (c_self cx) address value (set_nonce address 1 (create_account address s1))) in *.
+  set (s4 := transfer (c_self cx) address value (set_nonce address 1 (create_account (p_resurrect G) address s1))) in *.
   set (r := run_code P runf (mkCtx address (c_self cx) value (c_static cx) (c_depth cx + 1)) init gas s4) in *.
   assert (ext s1 (r_st r)) as E1.
   { eapply ext_trans; [|apply (run_code_good runf _ init gas s4 H)].
@@ -292,11 +303,11 @@ Qed.
 (* in a branch taken although [static && w] should have stopped it, pv is absurd *)
 Lemma R_nonstatic : forall cx w s g s' g' b,
   c_static cx && w = false -> (writes_ok G = true -> w = true) ->
-  (stipend_ok G = true -> g' <= g) -> ext s s' -> (wf s -> wf s' /\ total s' + b = total s) ->
+  (stipend_ok G = true -> g' <= g) -> ext s s' -> (no_resurrection G = true -> wf s -> wf s' /\ total s' + b = total s) ->
   R (c_static cx = true) s g s' g' b.
 Proof.
   intros cx w s g s' g' b E Hw A B C. Rsplit; try tauto.
-  intros K1 K2. rewrite K2, (Hw K1) in E. discriminate.
+  intros K1 _ K2. rewrite K2, (Hw K1) in E. discriminate.
 Qed.
 
 Lemma fail_good : forall (pv : Prop) s gas g, g <= gas -> sgood pv s gas (fail g s).
@@ -371,11 +382,11 @@ Proof.
     + apply charge_le in C3. cbn [sgood].
       apply (R_nonstatic cx (w_sstore G)); [assumption | apply writes_ok_sstore | intro; lia | | ].
       * eapply ext_trans; [exact E1 | apply ext_set_state].
-      * intro W. destruct (W1 W) as [W2 T2]. split; [apply wf_set_state; assumption|].
+      * intros _ W. destruct (W1 W) as [W2 T2]. split; [apply wf_set_state; assumption|].
         rewrite total_set_state by assumption. lia.
     + unfold fail, sgood, good. cbn [r_st r_gas r_burnt].
       apply (R_nonstatic cx (w_sstore G)); [assumption | apply writes_ok_sstore | intro; lia | assumption | ].
-      intro W. destruct (W1 W). split; [assumption | lia].
+      intros _ W. destruct (W1 W). split; [assumption | lia].
   - (* LOG *)
     destruct (charge ((N.of_nat (length topics) + 2) * g_push G) gas) as [g1|] eqn:C1; [apply charge_le in C1 | apply fail_good; lia].
     destruct (N.ltb 4 (N.of_nat (length topics))) eqn:E4; [apply fail_good; lia|].
@@ -385,7 +396,7 @@ Proof.
     destruct (charge _ g2) as [g3|] eqn:C3; [apply charge_le in C3 | apply fail_good; lia].
     cbn [sgood]. apply (R_nonstatic cx (w_log G (N.of_nat (length topics)))); [assumption | | intro; lia | apply ext_add_log | ].
     + intro Hw. apply writes_ok_log; [assumption | lia].
-    + intro W. split; [exact W | unfold total; cbn; lia].
+    + intros _ W. split; [exact W | unfold total; cbn; lia].
   - (* CALL family *)
     set (hasv := match k with KCall | KCallCode => true | _ => false end).
     set (v' := if hasv then v else 0).
@@ -404,7 +415,7 @@ Proof.
         assert (N.eqb v' 0 = false -> p_callvalue G <= base) as Hb.
         { intro Hv. subst base v' hasv. destruct k; cbn in Hv |- *; try discriminate; rewrite Hv; lia. }
         subst given. destruct (N.eqb v' 0) eqn:Ev; [lia|]. specialize (Hb eq_refl). lia.
-      - intros Hw Hs. apply D; [assumption|]. split; [left; assumption|].
+      - intros Hw NR Hs. apply D; [assumption | assumption|]. split; [left; assumption|].
         intro Hk. subst k. subst v' hasv. cbn in Ew |- *. rewrite Hs in Ew. cbn in Ew.
         apply orb_false_iff in Ew. destruct Ew as [_ Ew]. apply negb_false_iff in Ew. apply N.eqb_eq in Ew. exact Ew. }
     destruct (r_status r) eqn:Est; try (apply epilogue_good; exact Rr).
@@ -444,7 +455,7 @@ Proof.
     + apply charge_le in C3. unfold sgood, good. cbn [r_st r_gas r_burnt].
       apply (R_nonstatic cx (w_selfdestruct G)); [assumption | apply writes_ok_selfdestruct | intro; lia | | ].
       * eapply ext_trans; [exact E1|]. eapply ext_trans; [apply ext_add_balance | apply ext_suicide].
-      * intro W. assert (wf s1) as W1 by (unfold wf; rewrite A1; exact W).
+      * intros _ W. assert (wf s1) as W1 by (unfold wf; rewrite A1; exact W).
         assert (total s1 = total s) as T1 by (unfold total; rewrite A1; reflexivity).
         split; [apply wf_suicide, wf_add_balance; assumption|].
         pose proof (total_suicide (c_self cx) (add_balance ben bal s1) (wf_add_balance ben bal s1 W1)) as TS.
@@ -465,9 +476,12 @@ Proof.
         rewrite GB in TS. destruct (addr_eqb ben (c_self cx)); lia.
     + unfold fail, sgood, good. cbn [r_st r_gas r_burnt].
       apply (R_nonstatic cx (w_selfdestruct G)); [assumption | apply writes_ok_selfdestruct | intro; lia | assumption | ].
-      intro W. unfold wf, total. rewrite A1. split; [assumption | lia].
+      intros _ W. unfold wf, total. rewrite A1. split; [assumption | lia].
   - (* NOP *)
     destruct (charge (n * g_jumpdest G) gas) as [g1|] eqn:C1; [apply charge_le in C1; Rsame | apply fail_good; lia].
+  - (* IF: only the test *)
+    match goal with |- context [charge ?c gas] => destruct (charge c gas) as [g1|] eqn:C1 end;
+      [apply charge_le in C1; Rsame | apply fail_good; lia].
   - (* STOP *)
     destruct (charge (g_stop G) gas) as [g1|] eqn:C1; [apply charge_le in C1; Rsame | apply fail_good; lia].
   - (* RETURN *)
@@ -515,31 +529,31 @@ Proof.
   destruct (create_frame_failed G P (run G P fuel) cx init gas value address s r (run_good G P fuel) Hr Hs) as [[H _]|[H _]]; [left | right]; exact H.
 Qed.
 
-Lemma static_pure : forall G P fuel, writes_ok G = true ->
+Lemma static_pure : forall G P fuel, writes_ok G = true -> no_resurrection G = true ->
   (forall cx acts mem gas s, c_static cx = true -> veq s (r_st (run G P fuel cx acts mem gas s))) /\
   (forall k cx to gas value s, c_static cx = true \/ k = KStatic -> (k = KCall -> value = 0) ->
      veq s (r_st (call_frame G P (run G P fuel) k cx to gas value s))).
 Proof.
-  intros G P fuel Hw. split.
+  intros G P fuel Hw NR. split.
   - intros cx acts mem gas s Hs. destruct (run_good G P fuel cx acts mem gas s) as (_ & _ & _ & D). apply D; assumption.
   - intros k cx to gas value s H1 H2.
     destruct (call_frame_good G P (run G P fuel) k cx to gas value s (run_good G P fuel)) as (_ & _ & _ & D).
-    apply D; [assumption | split; assumption].
+    apply D; [assumption | assumption | split; assumption].
 Qed.
 
-Lemma value_conserved : forall G P fuel,
+Lemma value_conserved : forall G P fuel, no_resurrection G = true ->
   (forall cx acts mem gas s, wf s -> let r := run G P fuel cx acts mem gas s in wf (r_st r) /\ total (r_st r) + r_burnt r = total s) /\
   (forall k cx to gas value s, wf s -> let r := call_frame G P (run G P fuel) k cx to gas value s in
      wf (r_st r) /\ total (r_st r) + r_burnt r = total s) /\
   (forall cx init gas value address s, wf s -> let r := create_frame G P (run G P fuel) cx init gas value address s in
      wf (r_st r) /\ total (r_st r) + r_burnt r = total s).
 Proof.
-  intros G P fuel. split; [|split].
-  - intros cx acts mem gas s W. destruct (run_good G P fuel cx acts mem gas s) as (_ & _ & C & _). apply C. exact W.
+  intros G P fuel NR. split; [|split].
+  - intros cx acts mem gas s W. destruct (run_good G P fuel cx acts mem gas s) as (_ & _ & C & _). apply C; assumption.
   - intros k cx to gas value s W.
-    destruct (call_frame_good G P (run G P fuel) k cx to gas value s (run_good G P fuel)) as (_ & _ & C & _). apply C. exact W.
+    destruct (call_frame_good G P (run G P fuel) k cx to gas value s (run_good G P fuel)) as (_ & _ & C & _). apply C; assumption.
   - intros cx init gas value address s W.
-    destruct (create_frame_good G P (run G P fuel) cx init gas value address s (run_good G P fuel)) as (_ & _ & C & _). apply C. exact W.
+    destruct (create_frame_good G P (run G P fuel) cx init gas value address s (run_good G P fuel)) as (_ & _ & C & _). apply C; assumption.
 Qed.
 
 Lemma gas_bounded : forall G P fuel, stipend_ok G = true ->
@@ -555,8 +569,11 @@ Proof.
     destruct (create_frame_good G P (run G P fuel) cx init gas value address s (run_good G P fuel)) as (A & _). apply A. exact Hs.
 Qed.
 
-Lemma table_ok_split : forall G, table_ok G = true -> writes_ok G = true /\ stipend_ok G = true.
-Proof. intros G H. unfold table_ok in H. apply andb_prop in H. exact H. Qed.
+Lemma table_ok_split : forall G, table_ok G = true -> writes_ok G = true /\ stipend_ok G = true /\ no_resurrection G = true.
+Proof.
+  intros G H. unfold table_ok in H. apply andb_prop in H. destruct H as [H H3]. apply andb_prop in H. destruct H as [H1 H2].
+  repeat split; assumption.
+Qed.
 
 (* the whole property in one statement *)
 Definition C16_full : Prop :=
@@ -583,13 +600,57 @@ Definition C16_full : Prop :=
 
 Lemma c16_full : C16_full.
 Proof.
-  intros G P fuel Ht. destruct (table_ok_split G Ht) as [Hw Hs].
-  destruct (static_pure G P fuel Hw) as [S1 S2].
-  destruct (value_conserved G P fuel) as (V1 & V2 & V3).
+  intros G P fuel Ht. destruct (table_ok_split G Ht) as (Hw & Hs & NR).
+  destruct (static_pure G P fuel Hw NR) as [S1 S2].
+  destruct (value_conserved G P fuel NR) as (V1 & V2 & V3).
   destruct (gas_bounded G P fuel Hs) as (G1 & G2 & G3).
   refine (conj _ (conj _ (conj S1 (conj S2 (conj _ (conj _ (conj G1 (conj G2 G3)))))))).
   - intros k cx to gas value s r Hr Hst. eapply failed_call_no_trace; eassumption.
   - intros cx init gas value address s r Hr Hst. eapply failed_create_no_trace; eassumption.
   - intros origin to gas value s W. apply (V2 KCall (origin_ctx origin) to gas value s W).
   - intros origin init gas value s W. apply (V3 (origin_ctx origin) init gas value (Cr origin (get_nonce origin s)) s W).
+Qed.
+
+(* ---- blocks: the same statements in any transaction of a block --------------------- *)
+
+Lemma seq_storage : forall s1 s2, seq s1 s2 ->
+  forall a k, get_state a k s1 = get_state a k s2 /\ get_committed a k s1 = get_committed a k s2.
+Proof.
+  intros s1 s2 H a k. unfold get_state, get_committed. rewrite (get_obj_jeq s1 s2 a H). split; reflexivity.
+Qed.
+
+(* whatever earlier transactions of the block did and Finalise parked in the pending
+   layer: a failing frame of the current transaction leaves every account, and so every
+   slot as read by GetState and GetCommittedState, as it found it *)
+Lemma failed_call_no_trace_in_block : forall G P fuel txs s0 k cx to gas value r,
+  r = call_frame G P (run G P fuel) k cx to gas value (block_state G P fuel txs s0) ->
+  r_status r = Failed \/ r_status r = Reverted ->
+  seq (r_st r) (block_state G P fuel txs s0) /\
+  (forall a key, get_state a key (r_st r) = get_state a key (block_state G P fuel txs s0) /\
+                 get_committed a key (r_st r) = get_committed a key (block_state G P fuel txs s0)).
+Proof.
+  intros G P fuel txs s0 k cx to gas value r Hr Hs.
+  pose proof (failed_call_no_trace G P fuel k cx to gas value _ r Hr Hs) as H.
+  split; [exact H | apply seq_storage; exact H].
+Qed.
+
+Lemma run_tx_conserved : forall G P fuel t s, no_resurrection G = true -> wf s ->
+  let r := run_tx G P fuel t s in wf (r_st r) /\ total (r_st r) + r_burnt r = total s.
+Proof.
+  intros G P fuel t s NR W. destruct (value_conserved G P fuel NR) as (_ & V2 & V3).
+  unfold run_tx. destruct (t_create t).
+  - apply (V3 (origin_ctx (t_origin t)) (t_init t) (t_gas t) (t_value t) _ s W).
+  - apply (V2 KCall (origin_ctx (t_origin t)) (t_to t) (t_gas t) (t_value t) s W).
+Qed.
+
+(* over a whole block no value appears: execution conserves it up to the burns, and
+   Finalise only removes the balances of the accounts it deletes *)
+Lemma block_no_value_created : forall G P fuel txs s, no_resurrection G = true -> wf s ->
+  wf (block_state G P fuel txs s) /\ total (block_state G P fuel txs s) <= total s.
+Proof.
+  intros G P fuel txs. induction txs as [|t txs IH]; intros s NR W; cbn [block_state].
+  - split; [exact W | lia].
+  - destruct (run_tx_conserved G P fuel t s NR W) as [W1 T1].
+    pose proof (wf_finalise _ W1) as W2. pose proof (total_finalise _ W1) as T2.
+    destruct (IH _ NR W2) as [W3 T3]. split; [exact W3 | lia].
 Qed.
